@@ -294,6 +294,14 @@ partial def seqSteps (ω : Oracle) (n : Nat) (idx : Nat) (model impl : Pool) (v 
         if !(out.rows.all (fun r => srcRows.contains r)) then
           v := { v with c01 := firstFail v.c01 s!"{tag}:rows-torn-apart" }
     | none => pure ()
+    -- Shift moves rows whole: every row of the result is a row of the source or the all-nil filler row
+    match op, derived with
+    | .shift .., some out =>
+      if out.keys == src.keys && out.rect? && src.rect? then
+        let srcRows := src.rows
+        if !(out.rows.all (fun r => srcRows.contains r || r.all (· == Cell.nil))) then
+          v := { v with c01 := firstFail v.c01 s!"{tag}:rows-torn-apart" }
+    | _, _ => pure ()
   -- the operation's own specification, on the implementation's input and output
   match relSpec ω impl op status impl' with
   | some (key, good) =>
